@@ -597,7 +597,21 @@ def model(obj):
     return deco
 
 
-MODELS_BY_NAME = {}  # qualified name of a builtin method (e.g. 'datetime.strptime', 'Pattern.match') -> handler
+PATTERN_MODELS = {}  # regex pattern text -> handler(it, compiled_pattern, string) for Pattern.match on symbolic strings
+
+
+def _pattern_match_dispatch(it, func, a, k):
+    pat = func.__self__
+    s = a[0]
+    if isinstance(s, str):
+        return it.native(func, a, k)
+    h = PATTERN_MODELS.get(pat.pattern)
+    if h is None:
+        raise Unsupported("re.match of %r on a symbolic string has no assumed contract" % pat.pattern)
+    return h(it, pat, s)
+
+
+MODELS_BY_NAME = {"Pattern.match": _pattern_match_dispatch}  # qualified name of a builtin method (e.g. 'datetime.strptime', 'Pattern.match') -> handler
 
 
 def lookup_model(func):
@@ -1758,6 +1772,13 @@ class Interp:
                 raise Unsupported("attribute %s on symbolic float" % name)
             raise Unsupported("attribute %s on symbolic %s" % (name, obj.sort()))
         if isinstance(obj, SStr):
+            pc = getattr(obj, "pycls", None)
+            if pc is not None:
+                for k in pc.__mro__:
+                    if k is str:
+                        break
+                    if name in k.__dict__:
+                        return self.bind_descriptor(k.__dict__[name], obj, pc, name)
             return BoundStrMethod(obj, name)
         if isinstance(obj, SSeq):
             if name == "__iter__":
